@@ -9,6 +9,8 @@ import numpy as np
 from vkit import metagen
 
 RATIO = 12
+UNBOUND = set()   # instrumentation points that the code under test does not have (any more)
+WRAP = 32000      # the sample counter written into the int16 sync column wraps here
 OV = 576
 GAINSETS = [(0.5, 8192), (0.62, 2048), (0.6, 512), (0.62, 8192)]
 
@@ -78,7 +80,7 @@ def make_recording(root, ns, rng, kind="NP2.4", n=384, sites=None, gainset=(0.5,
                    zip(rng.uniform(200, 900, 8), rng.uniform(2, 6000, 8), rng.uniform(0, 6.28, 8)))
         d = (base[:, None] * rng.uniform(0.5, 1.5, nc)[None, :] + rng.normal(0, 300, (ns, nc)))
         d = np.clip(np.round(d), -8000, 8000).astype(np.int16)
-    d[:, -1] = (np.arange(ns) % 32000).astype(np.int16)
+    d[:, -1] = (np.arange(ns) % WRAP).astype(np.int16)
     b = metagen.write_recording(folder, "_spikeglx_ephysData_g0_t0.imec0", txt, d)
     return b, d, info
 
@@ -94,12 +96,25 @@ class Recorder:
     def __init__(self, conv):
         self.events = []
         self.conv = conv
+        self.bound = hasattr(conv, "_ind2save")
+        if not self.bound:
+            # the private per-window method is not there (renamed / inlined): no per-window observation, the run is judged on the
+            # files it leaves (black box); reported as drift by the caller
+            UNBOUND.add("NP2Converter._ind2save")
+            return
         orig = conv._ind2save
 
         def wrapped(chunk, chunk_sync, wg, ratio=1, etype="ap"):
             out = orig(chunk, chunk_sync, wg, ratio=ratio, etype=etype)
-            tok = out[:, -1].astype(np.int64).tolist()
+            tok = out[:, -1].astype(np.int64)
             first = int(round(float(chunk_sync[0, 0]))) if chunk_sync.shape[1] else -1
+            if first >= 0 and int(wg.ns) > WRAP:
+                # the counter in the sync column wraps at WRAP: the multiple of WRAP is resolved with the position the generator
+                # claims (windows are shorter than WRAP), everything else still comes from the data
+                fw = first
+                first = fw + WRAP * int(round((int(wg.iw) * (int(wg.nswin) - int(wg.overlap)) - fw) / WRAP))
+                tok = first + ((tok - fw) % WRAP)
+            tok = tok.tolist()
             self.events.append({"etype": etype, "iw": int(wg.iw), "nwin": int(wg.nwin), "len": int(chunk.shape[1]),
                                 "first": first, "last": min(first + int(wg.nswin), int(wg.ns)), "tok": tok})
             return out
